@@ -39,8 +39,8 @@ def run(ctx):
     # whose methods are no longer seen, allocations that all fail) must not pass for "no mismatch"
     floors = {"row": 172, "accept-reg": 172, "accept-var": 172, "accept-class": 172, "pas": 600, "accept-as": 150,
               "accept-ident": 14000, "accept-lookup": 1000, "lookupid": 1000, "lookupphys": 2000, "spec": 65536,
-              "accept-ctor": 50, "vas": 300, "accept-vas": 40, "accept-vnew": 300, "vnew": 150, "vlook": 500,
-              "accept-vlook": 400, "coll": 100, "collrun": 3, "accept-fresh": 100, "accept-lookup-junk": 100}
+              "accept-ctor": 50, "vas": 300, "accept-vas": 40, "accept-vnew": 300, "vnew": 60, "vlook": 500,
+              "accept-vlook": 400, "accept-vlookdflt": 400, "coll": 100, "collrun": 3, "accept-fresh": 100, "accept-lookup-junk": 100}
     for tag in runs:
         got = ctx.coverage.get("input_distribution", {}).get(tag, {}).get("requests_by_kind")
         if got is None:
@@ -82,9 +82,9 @@ def run(ctx):
         "65537 registers per kind (every allocation under recover: a refusal is accepted from allocation number 65536 on). "
         "GENERATED (-n): conversion chains of length 2-5 on physical and virtual registers, mixed allocation "
         "histories, malformed/random ids, kinds, indexes and specs for the lookups and the virtual constructors. Exact comparison with the Lean model "
-        "for everything the API pins down; acceptors (accept-reg/-var/-ident/-as/-lookup/-lookup-virtual/-lookup-junk/-vas/-vnew/-vlook/-ctor/"
+        "for everything the API pins down; acceptors (accept-reg/-var/-ident/-as/-lookup/-lookup-virtual/-lookup-junk/-vas/-vnew/-vlook/-vlookdflt/-ctor/"
         "-fresh/-alloc-fail/-class/-vclass) evaluate (`decide`) the declarative clauses proved in Props/C20.lean (RegOK, VarOK, IdentOK, AsOK, "
-        "JunkLookupOK, VAsOK, VNewOK, FreshOK, AllocFailOK, ClassOK, VClassOK) on the implementation's outputs against the measured table. "
+        "JunkLookupOK, VAsOK, VNewOK, DefaultViewOK, CtorOK, VirtualLookupOK, FreshOK, AllocFailOK, ClassOK, VClassOK) on the implementation's outputs against the measured table. "
         "LookupID on a value with junk in the flag byte (never built by avo) is judged by an acceptor only (nil, or the register the kind/index "
         "fields name). Lower bounds on the number of judged cases per stream are obligations. "
         "non-trivial = not a spec value >= 128, a raw id decomposition or a lookup answering nil")
